@@ -15,6 +15,7 @@ def P(name, pkg, race=False, run=None, quick=1500, thorough=14400, tiers=None, a
     return d
 
 PROPS = {
+    "C15": {"level": "exploration", "parts": [P("main", "c15", run="^TestC15$")]},
     "C19": {"level": "exploration", "parts": [P("main", "c19", run="^TestC19$")]},
     "C12": {"level": "exploration", "parts": [P("main", "c12", run="^TestC12$")]},
     "C18": {"level": "exploration", "parts": [P("main", "c18", run="^TestC18$"), P("race", "c18", race=True, run="^TestC18Race$")]},
